@@ -217,18 +217,30 @@ def check(chk):
 
     # the completion callback of the pool futures decides "all pools are there" by looking at the set of outstanding futures:
     # it must not be able to run before that set is complete
-    chk.rule('C25.register', 'Cluster.on_up registers the done-callback of the pool futures only after every future is in the set it inspects; loops over that set use a snapshot')
-    ou = cl.func('Cluster.on_up')
-    creating = [lp for lp in body_walk(ou) if isinstance(lp, ast.For) and any(isinstance(c_, ast.Call) and isinstance(c_.func, ast.Attribute) and c_.func.attr == 'add_or_renew_pool' for c_ in ast.walk(lp))]
-    if not creating:
-        raise AnalysisError('Cluster.on_up: pool creation loop not found')
-    early = [c_ for lp in creating for c_ in ast.walk(lp) if isinstance(c_, ast.Call) and isinstance(c_.func, ast.Attribute) and c_.func.attr == 'add_done_callback']
-    regs = [c_ for c_ in body_walk(ou) if isinstance(c_, ast.Call) and isinstance(c_.func, ast.Attribute) and c_.func.attr == 'add_done_callback']
-    chk.judge(bool(regs) and not early, 'C25.register', ou, 'on_up: add_done_callback after the loop that fills `futures`',
-              'the callback is registered inside the loop that creates the pool futures: a future that is already done runs the callback at once, while the set of '
-              'outstanding futures is still incomplete - the host is marked up (and listeners are told) before the other sessions have their pools')
-    live_iter = [lp for lp in body_walk(ou) if isinstance(lp, ast.For) and src(lp.iter) == 'futures']
-    chk.judge(not live_iter, 'C25.register', ou, 'on_up iterates tuple(futures), never the live set', 'the live set is iterated while callbacks discard from it (RuntimeError: Set changed size during iteration)')
+    chk.rule('C25.register', 'Cluster.on_up / on_add register the done-callback of the pool futures only after every future is in the set it inspects; loops over that set use a snapshot; '
+                             'the direct (no future) completion is decided by a flag, not by the set the callbacks empty')
+    for hname in ('Cluster.on_up', 'Cluster.on_add'):
+        ou = cl.func(hname)
+        creating = [lp for lp in body_walk(ou) if isinstance(lp, ast.For) and any(isinstance(c_, ast.Call) and isinstance(c_.func, ast.Attribute) and c_.func.attr == 'add_or_renew_pool' for c_ in ast.walk(lp))]
+        if not creating:
+            raise AnalysisError('%s: pool creation loop not found' % hname)
+        early = [c_ for lp in creating for c_ in ast.walk(lp) if isinstance(c_, ast.Call) and isinstance(c_.func, ast.Attribute) and c_.func.attr == 'add_done_callback']
+        regs = [c_ for c_ in body_walk(ou) if isinstance(c_, ast.Call) and isinstance(c_.func, ast.Attribute) and c_.func.attr == 'add_done_callback']
+        chk.judge(bool(regs) and not early, 'C25.register', ou, '%s: add_done_callback after the loop that fills `futures`' % hname,
+                  'the callback is registered inside the loop that creates the pool futures: a future that is already done runs the callback at once, while the set of '
+                  'outstanding futures is still incomplete - the host is marked up / announced (and listeners are told) before the other sessions have their pools, and once more '
+                  'when the next future completes')
+        live_iter = [lp for lp in body_walk(ou) if isinstance(lp, ast.For) and src(lp.iter) == 'futures']
+        chk.judge(not live_iter, 'C25.register', ou, '%s iterates tuple(futures), never the live set' % hname, 'the live set is iterated while callbacks discard from it (RuntimeError: Set changed size during iteration)')
+        # the fall-back for "no session had a pool to create" must not look at the set the callbacks empty
+        direct = [n for n in body_walk(ou) if isinstance(n, ast.If) and any(isinstance(c_, ast.Call) and src(c_.func) in ('self._finalize_add', 'self._on_up_future_completed') or
+                                                                           (isinstance(c_, ast.Call) and isinstance(c_.func, ast.Attribute) and c_.func.attr in ('set_up',)) for st_ in n.body for c_ in ast.walk(st_))
+                  and n.lineno > creating[-1].lineno]
+        for d in direct:
+            reads_set = any(isinstance(x, ast.Name) and x.id == 'futures' for x in ast.walk(d.test))
+            chk.judge(not reads_set, 'C25.register', d, '%s: the direct completion is guarded by a flag (%s)' % (hname, src(d.test)),
+                      'the direct completion tests the set of outstanding futures (%s): a future that completed as soon as its callback was attached has emptied the set, so the host is '
+                      'finalised by the callback and then once more here - listeners see the new host twice' % src(d.test))
     _forward_rule(chk)
 
 
